@@ -103,6 +103,9 @@ def histories(draw, tier, kind):
                 nres += 1
     c['ops'] = ops
     c['late_pastify'] = kind == 'dt_on_past' and draw(st.integers(0, 3)) == 0
+    if kind == 'dt_on' and not unitconf and not fault and draw(st.integers(0, 4)) == 0:
+        c['combined'] = True
+        c['offline_before'] = True
     if unitconf:
         c['sampling'] = [1, 'ms', draw(st.sampled_from([0.1, 0.25]))]
     elif kind.startswith('dt') and draw(st.booleans()):
@@ -172,6 +175,13 @@ def check(case):
             real = Runner(case, spec0)
         else:
             real = Runner(case, fresh())
+            if case.get('offline_before') and kind == 'dt_on':
+                # the combined class: the object was used as an offline monitor (on a time column with irregular gaps)
+                # before; the history then starts with reset()
+                labels.append('evaluate-before-reset')
+                used_ = real.used
+                real.spec.evaluate(dict([('time', [0.0, 1.0, 5.0, 6.0])] + [(v, [1.0, 2.0, 0.5, 3.0]) for v in used_]))
+                real.spec.reset()
         shadow = Runner(case, fresh())
     except Exception as e:  # noqa
         return DISCARD('build-raises(C14/C17):' + type(e).__name__, labels)
